@@ -1,26 +1,16 @@
 """C11 - settings are validated, read back, and honoured in the bitstream (module EncCtl)."""
-import hashlib, json, os, re, threading
+import hashlib, json, os, re, threading, time
 import vf
 
 LEVEL = "model_checking"
 
-# Provisional known findings (see BUILDING.md "Known findings"): genuine deviations of the pinned
-# tree from C11 that this check reports; to be moved into known_findings.json (or removed after a
-# `fix:` commit) by the coordinator.  A rejected event is matched on the fields the key names.
-PROVISIONAL = [
-    dict(property="C11", status="known", id="F1",
-         key=dict(o="enc", k="enc", why="SettingsUntouched", fields="fc", ch=2, fc_before=-1000, fc_after=1),
-         what="an encode call overwrites OPUS_SET_FORCE_CHANNELS: src/opus_encoder.c multi-frame path sets "
-              "st->force_channels=1 during a stereo->mono transition and never restores it (DESIGN 8-F1)"),
-    dict(property="C11", status="known", id="F4",
-         key=dict(oclass="ms_enc", k="set", req=4040, why="ReturnCode", r=0),
-         what="opus_multistream_encoder_ctl(OPUS_SET_EXPERT_FRAME_DURATION) stores any value without the range check "
-              "of opus_encoder_ctl (src/opus_multistream_encoder.c: st->variable_duration = value) and the getter reports it"),
-    dict(property="C11", status="known", id="F5",
-         key=dict(oclass="ms_enc", k="set", req=4022, v=2, r=-1, why="RejectKeepsAll", fields="fc"),
-         what="opus_multistream_encoder_ctl(OPUS_SET_FORCE_CHANNELS(2)) on a layout with a mono stream returns OPUS_BAD_ARG "
-              "after it has already forced the coupled streams to 2 (fan-out stops at the first refusing stream)"),
-]
+# Provisional known findings (see BUILDING.md "Known findings"): deviations this check has found that are
+# not yet in known_findings.json.  A rejected event is matched on the fields the key of an entry names
+# (k, why, fields, o, oclass, req, v, r, fs, mb, Fs, ch, app, fam, nch, streams, coupled, fc_before,
+# fc_after).  Empty: F1 (encode overwrote force_channels), F7 (multistream frame duration unchecked) and
+# F8 (multistream force-channels half applied) were found by this check and are fixed in /repo
+# (8ebeae3d, 46b1a288, a0d8c0eb); replay/C11_finding_*.txt reproduce them on a tree without the fixes.
+PROVISIONAL = []
 
 CNT_NAMES = ["audio_packets", "ChannelsHonoured_binds", "ForceTakesEffect_binds", "BandwidthHonoured_binds_below_nyquist",
              "LowDelayIsCelt_binds", "ShortFramesAreCelt_binds", "setter_applied", "request_refused",
@@ -92,9 +82,9 @@ def script_exec(path, x):
     return out
 
 
-_re_rej = re.compile(r'<<"REJECTED_AT", (\d+), "(.*)">>$')
-_re_drift = re.compile(r'<<"DRIFT", (\d+), "(.*)">>$')
-_re_counts = re.compile(r'<<"COUNTS", "<<([\d, ]+)>>">>')
+_re_rej = re.compile(r'^"REJECTED_AT (\d+) (.*)"$')
+_re_drift = re.compile(r'^"DRIFT (\d+) (.*)"$')
+_re_counts = re.compile(r'^"COUNTS <<([\d, ]+)>>"$')
 
 
 def parse_prints(prints):
@@ -217,7 +207,10 @@ def run(ctx):
                                                     "DoDecSet", "DoDecGetNull", "DoDecReset"])
             cfg = "EncCtl_mc_quick.cfg" if tier == "quick" else "EncCtl_mc_thorough.cfg"
             mc_res["mc"] = ctx.mc("EncCtl_mc", cfg, what="EncCtl design theorems " + cfg, deadlock=True,
-                                  workers=4 if tier == "quick" else 8, timeout=400 if tier == "quick" else 2400, heap="6g")
+                                  workers=4 if tier == "quick" else 8, timeout=600 if tier == "quick" else 3000, heap="6g")
+            if tier == "thorough":
+                mc_res["dense"] = ctx.mc("EncCtl_mc", "EncCtl_mc_dense2.cfg", what="EncCtl design theorems, dense grid depth 2",
+                                         deadlock=True, workers=8, timeout=3000, heap="6g")
         except BaseException as e:      # re-raised in the main thread
             mc_res["err"] = e
     th = threading.Thread(target=do_mc)
@@ -228,7 +221,7 @@ def run(ctx):
     exe = vf.build_hx(var, "ctl.c", extra=["-Wl,--wrap=malloc"])
     s = ctx.seed
     scripts = []          # (name, path)
-    gens = ["EncCtl_gen1.cfg"] + (["EncCtl_gen2.cfg"] if tier == "thorough" else ["EncCtl_gen2q.cfg"])
+    gens = ["EncCtl_gen1.cfg", "EncCtl_gen2.cfg"] if tier == "thorough" else ["EncCtl_gen1q.cfg"]
     nhist = 0
     for g in gens:
         r = vf.tlc("EncCtl_mc", g, workers=4, deadlock=True, timeout=900, heap="4g")
@@ -250,7 +243,7 @@ def run(ctx):
     if rc != 0:
         raise vf.Infra("gen-create failed: " + err[-500:])
     scripts.append(("create", p))
-    nrand, nexec, steps = (8, 90, 30) if tier == "quick" else (16, 1500, 40)
+    nrand, nexec, steps = (8, 90, 30) if tier == "quick" else (16, 1000, 40)
     for i in range(nrand):
         p = ctx.path("rand_%02d.txt" % i)
         rc, err = vf.run_hx(exe, ["gen-random", s + 1000 * i, nexec, steps], p)
@@ -260,7 +253,7 @@ def run(ctx):
 
     # 3. split into jobs (whole executions), replay through the library, validate with TLC
     jobs = []
-    maxexec = {"gen": 2500, "create": 4000, "random": 400}
+    maxexec = {"gen": 800, "create": 4000, "random": 400}
     for name, p in scripts:
         base = name.split(":")[0]
         nx = sum(1 for ln in open(p) if ln.startswith("N "))
@@ -287,12 +280,16 @@ def run(ctx):
         with lock:
             res["n"], res["nx"] = scan_trace(ctx, out, stats)
         return res
+    vf.log("[C11] %d scripts -> %d jobs, t+%.0fs" % (len(scripts), len(jobs), time.time() - ctx.t0))
     results = vf.parallel(one, jobs, nproc=10 if tier == "quick" else 14)
+    vf.log("[C11] replay+validation done, t+%.0fs" % (time.time() - ctx.t0))
 
     th.join()
     if "err" in mc_res:
         raise mc_res["err"]
-    for k in ("cov", "mc"):
+    for k in ("cov", "mc", "dense"):
+        if k not in mc_res:
+            continue
         r = mc_res[k]
         if r.violation:
             raise vf.Infra("EncCtl model theorem %s violated (defect of the model, not of the code):\n%s" % (r.violation, r.state_dump[:1500]))
